@@ -339,4 +339,100 @@ theorem evalSeq_agree_sub (stat : Name → Bool) : ∀ {defs : List (Name × Fn)
         rw [this]; exact hst kf (List.mem_cons_of_mem _ hkf) hsk)
       exact ⟨e2', by simp [evalSeq, hc2, he2, bind, Except.bind], hfin⟩
 
+
+/-- Like `evalSeq_agree_closed_filter`, but a dropped definition may be `good`: then the second environment
+    already holds its final value (a parameter defined by an initial assignment, written as a constant), the
+    first does not know it before it is defined, and kept good definitions read good names only. -/
+theorem evalSeq_agree_closed_filter2 (good : Name → Prop) (keep : Name → Bool) (e1' : Env) :
+    ∀ {defs : List (Name × Fn)} {e1 e2 e2' : Env},
+    (defs.map (·.1)).Nodup →
+    evalSeq defs e1 = .ok e1' → evalSeq (defs.filter fun kf => keep kf.1) e2 = .ok e2' →
+    (∀ kf ∈ defs, good kf.1 → keep kf.1 = true → ∀ a ∈ kf.2.args, good a) →
+    (∀ kf ∈ defs, good kf.1 → keep kf.1 = false → e1.lookup kf.1 = none ∧ e2.lookup kf.1 = e1'.lookup kf.1) →
+    (∀ a, good a → (∀ kf ∈ defs, keep kf.1 = false → kf.1 ≠ a) → e1.lookup a = e2.lookup a) →
+    ∀ a, good a → e1'.lookup a = e2'.lookup a := by
+  intro defs; induction defs with
+  | nil =>
+    intro e1 e2 e2' _ h1 h2 _ _ hag a ha
+    simp [evalSeq, pure, Except.pure] at h1 h2; subst h1; subst h2
+    exact hag a ha (by intro kf hkf; cases hkf)
+  | cons kf rest ih =>
+    intro e1 e2 e2' hnd h1 h2 hcl hpend hag
+    obtain ⟨k, f⟩ := kf
+    obtain ⟨v1, hc1, hr1⟩ := evalSeq_cons_ok h1
+    simp only [List.map_cons, List.nodup_cons] at hnd
+    have hk_final : e1'.lookup k = some v1 := by
+      rw [evalSeq_lookup_not_mem hr1 hnd.1, Env.lookup_set]; simp
+    have hne : ∀ kf ∈ rest, (kf.1 == k) = false := by
+      intro kf hkf
+      have : kf.1 ≠ k := fun heq => hnd.1 (heq ▸ List.mem_map_of_mem hkf)
+      simpa using this
+    have hcl' : ∀ kf ∈ rest, good kf.1 → keep kf.1 = true → ∀ a ∈ kf.2.args, good a :=
+      fun kf hkf => hcl kf (List.mem_cons_of_mem _ hkf)
+    cases hkeep : keep k with
+    | false =>
+      have hfil : ((k, f) :: rest).filter (fun kf => keep kf.1) = rest.filter (fun kf => keep kf.1) := by
+        simp [List.filter_cons, hkeep]
+      rw [hfil] at h2
+      refine ih hnd.2 hr1 h2 hcl' ?_ ?_
+      · intro kf hkf hg hk
+        obtain ⟨p1, p2⟩ := hpend kf (List.mem_cons_of_mem _ hkf) hg hk
+        rw [Env.lookup_set, hne kf hkf]
+        exact ⟨p1, p2⟩
+      · intro a ha hnp
+        rw [Env.lookup_set]
+        cases hak : a == k with
+        | true =>
+          have : a = k := by simpa using hak
+          subst this
+          simp only [if_true]
+          rw [(hpend (a, f) List.mem_cons_self ha hkeep).2, hk_final]
+        | false =>
+          simp only [Bool.false_eq_true, if_false]
+          refine hag a ha ?_
+          intro kf hkf hk
+          cases List.mem_cons.mp hkf with
+          | inl h =>
+            subst h; intro heq
+            have hk' : k = a := heq
+            subst hk'; simp at hak
+          | inr h => exact hnp kf h hk
+    | true =>
+      have hfil : ((k, f) :: rest).filter (fun kf => keep kf.1) = (k, f) :: rest.filter (fun kf => keep kf.1) := by
+        simp [List.filter_cons, hkeep]
+      rw [hfil] at h2
+      obtain ⟨v2, hc2, hr2⟩ := evalSeq_cons_ok h2
+      refine ih hnd.2 hr1 hr2 hcl' ?_ ?_
+      · intro kf hkf hg hk
+        obtain ⟨p1, p2⟩ := hpend kf (List.mem_cons_of_mem _ hkf) hg hk
+        rw [Env.lookup_set, Env.lookup_set, hne kf hkf]
+        exact ⟨p1, p2⟩
+      · intro a ha hnp
+        have hnp' : ∀ b, b ≠ k → (∀ kf ∈ rest, keep kf.1 = false → kf.1 ≠ b) →
+            ∀ kf ∈ (k, f) :: rest, keep kf.1 = false → kf.1 ≠ b := by
+          intro b hb hr kf hkf hk
+          cases List.mem_cons.mp hkf with
+          | inl h => subst h; rw [hkeep] at hk; cases hk
+          | inr h => exact hr kf h hk
+        rw [Env.lookup_set, Env.lookup_set]
+        cases hak : a == k with
+        | true =>
+          have : a = k := by simpa using hak
+          subst this
+          simp only [if_true]
+          have hargs := hcl (a, f) List.mem_cons_self ha hkeep
+          have hsome := Fn.calc_ok_some hc1
+          have : f.calc e1 = f.calc e2 := Fn.calc_congr (fun b hb => by
+            refine hag b (hargs b hb) ?_
+            intro kf hkf hk heq
+            obtain ⟨w, hw⟩ := hsome b hb
+            have := (hpend kf hkf (heq ▸ hargs b hb) hk).1
+            rw [heq, hw] at this; cases this)
+          rw [hc1, hc2] at this
+          simp at this; simp [this]
+        | false =>
+          simp only [Bool.false_eq_true, if_false]
+          have hak' : a ≠ k := by simpa using hak
+          exact hag a ha (hnp' a hak' hnp)
+
 end Mxl
